@@ -104,7 +104,7 @@ def handleC10 (inp obs : List String) : Verdict :=
 /-! ## C01 -/
 def handleC01 (inp obs : List String) : Verdict :=
   let parsed := (do
-    let rev ← bool; let c ← nat; let threads ← nat; let comp ← opt nat; let tmp ← nat; let ty ← tok
+    let rev ← bool; let c ← nat; let threads ← nat; let comp ← opt nat; let tmp ← nat; let ty ← tok; let _builderOrder ← nat
     let xs ← many pSItem
     pure (rev, c, threads, comp, tmp, ty, xs)).run inp
   let pobs : Option ((Option (Nat × List (Item Nat SItem)) × String) × List String) := (do
